@@ -22,6 +22,8 @@
  *   OBJ ...                            object-level stream, see obj_stream()              expected answer "OBJ ok"
  *   TB / TE / TO / TR / TJ             tree-level stream, see tree_stream()               expected answer "TREE ok" (on TJ)
  *   TB / TE / TM <mutation> <status>   mutated documents, see mut_stream()                expected answer "TMUT ok" (on TM)
+ *   SB / SE / SD SM ST SK SI / SJ      side-structure stream, see side_stream()           expected answer "SIDE ok" (on SJ)
+ *   SB / SE / SU <mutation> <status>   mutated side elements, see smut_stream()           expected answer "SMUT ok" (on SU)
  */
 #include "topology-xml-nolibxml.c"
 #include "dump.h"
@@ -487,7 +489,9 @@ static int duplicate_initiators(hwloc_topology_t t) {
       for (unsigned k = 0; k < tg->nr_initiators; k++) for (unsigned l = k + 1; l < tg->nr_initiators; l++) {
         struct hwloc_internal_location_s *a = &tg->initiators[k].initiator, *b = &tg->initiators[l].initiator;
         if (a->type != b->type) continue;
-        if (a->type == HWLOC_LOCATION_TYPE_CPUSET ? hwloc_bitmap_isequal(a->location.cpuset, b->location.cpuset)
+        /* the importer's matching rule (match_internal_location): a later cpuset initiator INCLUDED in an earlier one is merged into it
+         * (equal sets are the special case the precondition was first written for; B4: thorough seed 1 met 0x11 / 0x10 after a restrict) */
+        if (a->type == HWLOC_LOCATION_TYPE_CPUSET ? hwloc_bitmap_isincluded(b->location.cpuset, a->location.cpuset)
             : (a->location.object.gp_index == b->location.object.gp_index && a->location.object.type == b->location.object.type)) return 1;
       }
     }
@@ -582,17 +586,17 @@ static void obj_stream(hwloc_topology_t t1, hwloc_topology_t t2, const char *xml
  * The driver builds the model tree from the TO lines: exportTree of it must be the TE tree exactly, it must be TreeValid,
  * importTree of the TE tree must be normTree of it, and must agree with the TR tree on what the model carries. */
 static int is_blank_c(char c) { return c == ' ' || c == '\t' || c == '\n' || c == '\r'; }
-static int tree_elems(const char *xml, size_t len) {
-  const char *end = xml + len, *p = NULL;
-  for (size_t k = 0; k + 8 <= len; k++) if (!memcmp(xml + k, "<object ", 8)) { p = xml + k; break; }
-  if (!p) return -1;
+/* the element scanner behind the TE (tree) and SE (side structures) lines: from the start tag at `p`; multi = 0: one element with
+ * its subtree; multi = 1: every sibling element up to the end tag of the enclosing element.  op = NULL: nothing is written. */
+static int scan_elems(const char *op, const char *p, const char *end, int multi, const char **afterp) {
   int depth = 0, n = 0;
   while (p < end && *p == '<') {
     if (p[1] == '/') {
+      if (depth == 0) break;                                   /* multi: the end tag of the enclosing element */
       while (p < end && *p != '>') p++;
       if (p >= end) return -1;
       p++; depth--;
-      if (depth <= 0) break;
+      if (depth <= 0 && !multi) break;
       while (p < end && is_blank_c(*p)) p++;
       continue;
     }
@@ -607,18 +611,32 @@ static int tree_elems(const char *xml, size_t len) {
     if (!closed) {
       while (r < end && *r != '<') r++;
       if (r >= end) return -1;
-      if ((size_t) (te - t) == 8 && !memcmp(t, "userdata", 8)) has = 1;          /* get_content takes the exact bytes up to the next tag */
+      if (((size_t) (te - t) == 8 && !memcmp(t, "userdata", 8)) || ((size_t) (te - t) == 7 && !memcmp(t, "indexes", 7))
+          || ((size_t) (te - t) == 9 && !memcmp(t, "u64values", 9))) has = 1;      /* get_content takes the exact bytes up to the next tag */
       else for (const char *z = q; z < r; z++) if (!is_blank_c(*z)) has = 1;
     }
-    fprintf(fops, "TE %d ", depth); fhex(fops, t, (size_t) (te - t)); fputc(' ', fops); fhex(fops, te, (size_t) (ae - te)); fputc(' ', fops);
-    if (has) fhex(fops, q, (size_t) (r - q)); else fputc('-', fops);
-    fputc('\n', fops); fprintf(fc, ".\n"); n++;
+    if (op) {
+      fprintf(fops, "%s %d ", op, depth); fhex(fops, t, (size_t) (te - t)); fputc(' ', fops); fhex(fops, te, (size_t) (ae - te)); fputc(' ', fops);
+      if (has) fhex(fops, q, (size_t) (r - q)); else fputc('-', fops);
+      fputc('\n', fops); fprintf(fc, ".\n");
+    }
+    n++;
     if (closed) {
-      if (depth == 0) break;
+      if (depth == 0 && !multi) { p = q; break; }
       p = q; while (p < end && is_blank_c(*p)) p++;
     } else { depth++; p = r; }
   }
+  if (afterp) { while (p < end && is_blank_c(*p)) p++; *afterp = p; }
   return n;
+}
+static const char *root_object(const char *xml, size_t len) {
+  for (size_t k = 0; k + 8 <= len; k++) if (!memcmp(xml + k, "<object ", 8)) return xml + k;
+  return NULL;
+}
+static int tree_elems(const char *xml, size_t len) {
+  const char *p = root_object(xml, len);
+  if (!p) return -1;
+  return scan_elems("TE", p, xml + len, 0, NULL);
 }
 static void tree_objs(const char *op, hwloc_topology_t t, hwloc_obj_t o, int depth, char kind) {
   hwloc_obj_t c;
@@ -648,6 +666,104 @@ static void tree_stream(hwloc_topology_t t1, hwloc_topology_t t2, const char *xm
   tree_objs("TO", t1, hwloc_get_root_obj(t1), 0, 'r');
   tree_objs("TR", t2, hwloc_get_root_obj(t2), 0, 'r');
   emit("TREE ok", "TJ");
+}
+
+/* ---- side-structure stream (v3, nolibxml export, the same topologies as the tree stream): the elements of the REAL export after
+ * the root <object> (distances2 / distances2hetero with their indexes / u64values children, support, memattr with memattr_value,
+ * cpukind with info, topology info) and the side structures of the original ("o") and of the reloaded ("r") topology:
+ *   SB
+ *   SE <depth> <tag hex> <raw attribute bytes hex> <content hex | ->
+ *   SD o|r <hetero> <unique type | -> <kind> <name hex | -> <n> (<type>:<index>){n} <value>{n*n}     hwloc_distances_get order
+ *   SM o|r <id> <name hex> <flags> <ntargets>                                                      hwloc_memattr_get_name / _flags
+ *   ST o|r <type> <gp_index> <value> <ninitiators> (c<set hex> | o<type>:<gp_index>) <value> ...   ... _get_targets / _get_initiators
+ *   SK o|r <cpuset hex> <forced_efficiency> <ninfos> (<name hex> <value hex>)*                     hwloc_cpukinds_get_info
+ *   SI o|r <n> (<name hex> <value hex>)*                                                           hwloc_topology_get_infos
+ *   SJ                                                                                             expected answer "SIDE ok"
+ * Everything comes from the public API except the two fields it does not show: cpukinds[k].forced_efficiency (get_info returns the
+ * computed efficiency) and whether a distances structure carries different_types[] (both read from the private structures).
+ * The driver builds the model state from the "o" lines: exportSide of it must be the SE elements exactly (support elements apart),
+ * importSide of the SE elements must be the normalised original and must agree with the "r" lines. */
+static void side_topo(const char *tag, hwloc_topology_t t) {
+  char a[4096];
+  { unsigned nr = 0; hwloc_distances_get(t, &nr, NULL, 0, 0);
+    struct hwloc_distances_s **ds = calloc(nr + 1, sizeof *ds);
+    hwloc_distances_get(t, &nr, ds, 0, 0);
+    unsigned nint = 0; for (struct hwloc_internal_distances_s *d = t->first_dist; d; d = d->next) nint++;
+    struct hwloc_internal_distances_s *id = t->first_dist;
+    for (unsigned i = 0; i < nr; i++, id = id ? id->next : NULL) {
+      unsigned n = ds[i]->nbobjs; int het = 0, bad = 0;
+      for (unsigned k = 0; k < n; k++) if (!ds[i]->objs[k]) bad = 1;
+      if (bad) { fprintf(fops, "SX %s null-object\n", tag); fprintf(fc, ".\n"); hwloc_distances_release(t, ds[i]); continue; }
+      if (nint == nr && id && id->nbobjs == n) het = id->different_types != NULL;
+      else for (unsigned k = 1; k < n; k++) if (ds[i]->objs[k]->type != ds[i]->objs[0]->type) het = 1;
+      const char *nm = hwloc_distances_get_name(t, ds[i]);
+      fprintf(fops, "SD %s %d ", tag, het);
+      if (het) fputc('-', fops); else fprintf(fops, "%d", (int) ds[i]->objs[0]->type);
+      fprintf(fops, " %lu ", ds[i]->kind); fhexs(fops, nm); fprintf(fops, " %u", n);
+      for (unsigned k = 0; k < n; k++) {
+        hwloc_obj_t o = ds[i]->objs[k];
+        int os = !het && (o->type == HWLOC_OBJ_PU || o->type == HWLOC_OBJ_NUMANODE);
+        fprintf(fops, " %d:%llu", (int) o->type, os ? (unsigned long long) o->os_index : (unsigned long long) o->gp_index);
+      }
+      for (unsigned k = 0; k < n * n; k++) fprintf(fops, " %llu", (unsigned long long) ds[i]->values[k]);
+      fputc('\n', fops); fprintf(fc, ".\n");
+      hwloc_distances_release(t, ds[i]);
+    }
+    free(ds); }
+  for (hwloc_memattr_id_t id = 0; ; id++) {
+    const char *nm = NULL; unsigned long fl = 0;
+    if (hwloc_memattr_get_name(t, id, &nm) < 0 || hwloc_memattr_get_flags(t, id, &fl) < 0) break;
+    unsigned nt = 0;
+    if (id >= 2) hwloc_memattr_get_targets(t, id, NULL, 0, &nt, NULL, NULL);       /* ids 0 and 1 are virtual (never exported) */
+    hwloc_obj_t *tg = calloc(nt + 1, sizeof *tg); hwloc_uint64_t *tv = calloc(nt + 1, sizeof *tv);
+    if (id >= 2) hwloc_memattr_get_targets(t, id, NULL, 0, &nt, tg, tv);
+    fprintf(fops, "SM %s %u ", tag, id); fhexs(fops, nm); fprintf(fops, " %lu %u\n", fl, nt); fprintf(fc, ".\n");
+    for (unsigned k = 0; k < nt; k++) {
+      fprintf(fops, "ST %s %d %llu", tag, (int) tg[k]->type, (unsigned long long) tg[k]->gp_index);
+      if (!(fl & HWLOC_MEMATTR_FLAG_NEED_INITIATOR)) fprintf(fops, " %llu 0", (unsigned long long) tv[k]);
+      else {
+        unsigned ni = 0; hwloc_memattr_get_initiators(t, id, tg[k], 0, &ni, NULL, NULL);
+        struct hwloc_location *in = calloc(ni + 1, sizeof *in); hwloc_uint64_t *iv = calloc(ni + 1, sizeof *iv);
+        hwloc_memattr_get_initiators(t, id, tg[k], 0, &ni, in, iv);
+        fprintf(fops, " 0 %u", ni);
+        for (unsigned j = 0; j < ni; j++) {
+          if (in[j].type == HWLOC_LOCATION_TYPE_CPUSET) { hex_of_set(a, sizeof a, in[j].location.cpuset); fprintf(fops, " c%s", a); }
+          else if (in[j].location.object) fprintf(fops, " o%d:%llu", (int) in[j].location.object->type, (unsigned long long) in[j].location.object->gp_index);
+          else fputs(" onull", fops);
+          fprintf(fops, " %llu", (unsigned long long) iv[j]);
+        }
+        free(in); free(iv);
+      }
+      fputc('\n', fops); fprintf(fc, ".\n");
+    }
+    free(tg); free(tv);
+  }
+  { int nk = hwloc_cpukinds_get_nr(t, 0);
+    hwloc_bitmap_t s = hwloc_bitmap_alloc();
+    for (int k = 0; k < nk; k++) {
+      int eff = -2; struct hwloc_infos_s *inf = NULL;
+      if (hwloc_cpukinds_get_info(t, k, s, &eff, &inf, 0) < 0) { fprintf(fops, "SX %s cpukind\n", tag); fprintf(fc, ".\n"); continue; }
+      hex_of_set(a, sizeof a, s);
+      fprintf(fops, "SK %s %s %d %u", tag, a, (unsigned) k < t->nr_cpukinds ? t->cpukinds[k].forced_efficiency : -2, inf ? inf->count : 0);
+      for (unsigned j = 0; inf && j < inf->count; j++) { fputc(' ', fops); fhexs(fops, inf->array[j].name); fputc(' ', fops); fhexs(fops, inf->array[j].value); }
+      fputc('\n', fops); fprintf(fc, ".\n");
+    }
+    hwloc_bitmap_free(s); }
+  { struct hwloc_infos_s *inf = hwloc_topology_get_infos(t);
+    fprintf(fops, "SI %s %u", tag, inf ? inf->count : 0);
+    for (unsigned j = 0; inf && j < inf->count; j++) { fputc(' ', fops); fhexs(fops, inf->array[j].name); fputc(' ', fops); fhexs(fops, inf->array[j].value); }
+    fputc('\n', fops); fprintf(fc, ".\n"); }
+}
+static void side_stream(hwloc_topology_t t1, hwloc_topology_t t2, const char *xml, size_t len) {
+  recollect(t1);
+  if (nobjs > TREE_MAX_OBJS || len > 400000) return;
+  const char *p = root_object(xml, len), *after = NULL;
+  if (!p || scan_elems(NULL, p, xml + len, 0, &after) < 0 || !after) return;
+  emit(".", "SB");
+  scan_elems("SE", after, xml + len, 1, NULL);
+  side_topo("o", t1);
+  side_topo("r", t2);
+  emit("SIDE ok", "SJ");
 }
 
 /* ---- mutated documents (v3, nolibxml export, small topologies): the export text is mutated line by line (the nolibxml exporter
@@ -772,6 +888,81 @@ static void mut_stream(const char *xml, size_t len) {
   }
 }
 
+/* ---- mutated SIDE elements (same documents): one line of the part after the root object is mutated so that the importers' REJECTING
+ * paths are driven: an attribute of a distances2(hetero) / indexes / u64values / memattr / memattr_value / cpukind / info start tag
+ * deleted ('p') or renamed ('q'), a child line (indexes / u64values / memattr_value / info) deleted ('r') or duplicated ('s'), the
+ * last number of an indexes / u64values text dropped with the length attribute kept ('t').  Each mutated document is loaded by the
+ * real hwloc in a forked grandchild and its side elements are sent to the driver:
+ *   SB ; SE ... ; SU <mutation> <status>         expected answer "SMUT ok"
+ * The driver runs importSide: a document the model REJECTS must not be loaded by hwloc; the other direction is not judged. */
+static int lv_is_side(const char *s) {
+  static const char *tg[] = { "<distances2", "<indexes ", "<u64values ", "<memattr ", "<memattr_value ", "<cpukind ", "<info " };
+  const char *bdy = lv_body(s);
+  for (unsigned i = 0; i < sizeof tg / sizeof tg[0]; i++) if (!strncmp(bdy, tg[i], strlen(tg[i]))) return 1;
+  return 0;
+}
+static int lv_is_sidechild(const char *s) {
+  const char *bdy = lv_body(s);
+  return !strncmp(bdy, "<indexes ", 9) || !strncmp(bdy, "<u64values ", 11) || !strncmp(bdy, "<memattr_value ", 15) || !strncmp(bdy, "<info ", 6);
+}
+#define SMUT_PER_CASE 4
+static void smut_stream(const char *xml, size_t len) {
+  if (nobjs > TREE_MAX_OBJS || len > 400000) return;
+  mut_state = 0x51ed270b4f7c3a95ull; for (size_t i = 0; i < len; i++) mut_state = (mut_state ^ (unsigned char) xml[i]) * 0x100000001b3ull;
+  if (!mut_state) mut_state = 1;
+  for (int m = 0; m < SMUT_PER_CASE; m++) {
+    struct lvec v = { NULL, 0, 0 };
+    { const char *p = xml, *e = xml + len; while (p < e && *p) { const char *q = memchr(p, '\n', (size_t) (e - p)); size_t n = q ? (size_t) (q - p) : strnlen(p, (size_t) (e - p));
+        char *s = malloc(n + 1); memcpy(s, p, n); s[n] = 0; lv_insert(&v, v.n, s); free(s); if (!q) break; p = q + 1; } }
+    /* the side part starts after the last </object> (or after the self-closed root) */
+    unsigned from = 0; for (unsigned i = 0; i < v.n; i++) if (lv_is_close(v.l[i]) || lv_is_open(v.l[i])) from = i + 1;
+    unsigned cand[512], nc = 0, candc[512], ncc = 0;
+    for (unsigned i = from; i < v.n; i++) { if (lv_is_side(v.l[i]) && nc < 512) cand[nc++] = i; if (lv_is_sidechild(v.l[i]) && ncc < 512) candc[ncc++] = i; }
+    char kind = "pqrst"[mut_rand(5)]; int done = 0;
+    if ((kind == 'p' || kind == 'q') && nc) {
+      unsigned t = cand[mut_rand(nc)];
+      /* the attributes of the start tag: ` name="..."` groups between the tag name and the first '>' (values hold no raw '"' or '>') */
+      char *l = v.l[t], *bdy = (char *) lv_body(l), *gt = strchr(bdy, '>');
+      unsigned na = 0, k0 = 0; char *at[32];
+      for (char *q = strchr(bdy, ' '); q && gt && q < gt && *q == ' ' && na < 32; ) {
+        char *eq = strchr(q, '='); if (!eq || eq >= gt || eq[1] != '"') break;
+        char *cl = strchr(eq + 2, '"'); if (!cl || cl >= gt) break;
+        at[na++] = q; q = cl + 1;
+      }
+      if (na > k0) {
+        char *a = at[k0 + mut_rand(na - k0)], *eq = strchr(a, '='), *cl = strchr(eq + 2, '"');
+        char *nl = malloc(strlen(l) + 4);
+        if (kind == 'p') sprintf(nl, "%.*s%s", (int) (a - l), l, cl + 1);
+        else sprintf(nl, "%.*s x%s", (int) (a - l), l, a + 1);
+        free(v.l[t]); v.l[t] = nl; done = 1;
+      }
+    } else if (kind == 'r' && ncc) { lv_remove(&v, candc[mut_rand(ncc)]); done = 1; }
+    else if (kind == 's' && ncc) { unsigned t = candc[mut_rand(ncc)]; char *c = strdup(v.l[t]); lv_insert(&v, t, c); free(c); done = 1; }
+    else if (kind == 't' && ncc) {
+      unsigned t = candc[mut_rand(ncc)];
+      char *l = v.l[t], *gt = strchr(l, '>'), *lt = gt ? strchr(gt, '<') : NULL;
+      if (gt && lt && lt - gt > 3 && lt[-1] == ' ') {
+        char *q = lt - 2; while (q > gt && *q != ' ') q--;
+        if (q > gt) { char *nl = malloc(strlen(l) + 1); sprintf(nl, "%.*s%s", (int) (q + 1 - l), l, lt); free(v.l[t]); v.l[t] = nl; done = 1; }
+      }
+    }
+    if (done) {
+      char *mb = NULL; size_t ml = 0; FILE *mf = open_memstream(&mb, &ml);
+      for (unsigned i = 0; i < v.n; i++) { fputs(v.l[i], mf); fputc('\n', mf); }
+      fclose(mf);
+      const char *p = root_object(mb, ml), *after = NULL;
+      if (p && scan_elems(NULL, p, mb + ml, 0, &after) >= 0 && after) {
+        int st = try_load(mb, ml);
+        emit(".", "SB");
+        if (scan_elems("SE", after, mb + ml, 1, NULL) >= 0) emit("SMUT ok", "SU %c %d", kind, st); else emit(".", "SB");
+      }
+      free(mb);
+    }
+    for (unsigned i = 0; i < v.n; i++) free(v.l[i]);
+    free(v.l);
+  }
+}
+
 static void roundtrip(char mode, int fmt) {
   unsigned long xflags = fmt == 2 ? HWLOC_TOPOLOGY_EXPORT_XML_FLAG_V2 : 0;
   hwloc_topology_t t2 = NULL;
@@ -802,7 +993,9 @@ static void roundtrip(char mode, int fmt) {
   emit("EQ ok", "CMP v%d", fmt);
   if (fmt == 3 && !cur_export_libxml && !getenv("VERIF_XMLRT_NO_OBJ")) obj_stream(topo, t2, x1, len1);
   if (fmt == 3 && !cur_export_libxml && !getenv("VERIF_XMLRT_NO_TREE")) tree_stream(topo, t2, x1, len1);
+  if (fmt == 3 && !cur_export_libxml && !getenv("VERIF_XMLRT_NO_TREE") && !getenv("VERIF_XMLRT_NO_SIDE")) side_stream(topo, t2, x1, len1);
   if (fmt == 3 && !cur_export_libxml && !getenv("VERIF_XMLRT_NO_TREE") && !getenv("VERIF_XMLRT_NO_MUT")) { recollect(topo); mut_stream(x1, len1); }
+  if (fmt == 3 && !cur_export_libxml && !getenv("VERIF_XMLRT_NO_TREE") && !getenv("VERIF_XMLRT_NO_SIDE") && !getenv("VERIF_XMLRT_NO_MUT")) { recollect(topo); smut_stream(x1, len1); }
   flush2();
   /* hwloc_topology_check() is not called on the reloaded topology: it is equivalent to the original (just judged), and whether
    * the original passes it is C01/C02's business (VERIF_XMLRT_CHECK=1 runs it on both, original first) */
@@ -908,7 +1101,7 @@ static void gen_op(char *line, size_t cap) {
     static const unsigned long fls[] = {0, 0, 0, 1, 3};
     hexs(h1, some_str());
     int noname = rng_chance(25);
-    unsigned n = 2 + rng_below(7);
+    unsigned n = rng_chance(25) ? 9 + rng_below(20) : 2 + rng_below(7);     /* beyond 10: more than one <indexes> child */
     if (rng_chance(30)) snprintf(line, cap, "OP distadd H %u %u %lu %lu %llu %s", rng_below(nobjs), n, kinds[rng_below(13)] | (rng_chance(70) ? 16 : 0), 0UL, (unsigned long long) rng_below(100000), noname ? "-" : h1);
     else {
       int depth = rng_chance(40) ? HWLOC_TYPE_DEPTH_NUMANODE : (int) rng_below(hwloc_topology_get_depth(topo));
